@@ -243,7 +243,7 @@ var c05Corpus = &vlib.Check{Prop: "C05", Name: "corpus", Oracle: c05Oracle, Clas
 func genTagSoup(r vlib.Rnd) []byte {
 	var sb strings.Builder
 	sb.WriteString("JSIGHT 0.3\n")
-	tags := []string{"@t1", "@t2", "@a_b", "@t1"}
+	tags := []string{"@t1", "@t2", "@a_b", "@t3"}
 	nt := r.Intn(4)
 	for i := 0; i < nt; i++ {
 		sb.WriteString("TAG " + tags[i])
@@ -255,7 +255,7 @@ func genTagSoup(r vlib.Rnd) []byte {
 			sb.WriteString("  Description\n    about the tag\n")
 		}
 	}
-	paths := []string{"/a", "/a/{id}", "/a/{id}/b", "/a/{id}/b/{x}", "/c_d/{p}", "/rpc", "/", "/a/b", "/{z}"}
+	paths := []string{"/a", "/a/{id}", "/a/{id}/b", "/a/{id}/b/{x}", "/c_d/{p}", "/rpc", "/", "/a/b", "/{z}", "/s/{id}/t/{ID}", "/s/{Id}/{iD}/{k}", "/a.b/{p}/{q}/{r}/{s}"}
 	verbs := []string{"GET", "POST", "PUT", "PATCH", "DELETE"}
 	nr := 1 + r.Intn(4)
 	used := map[string]bool{}
@@ -263,7 +263,7 @@ func genTagSoup(r vlib.Rnd) []byte {
 		p := vlib.Pick(r, paths)
 		tagLine := func(ind string) {
 			if vlib.Chance(r, 1, 2) {
-				k := 1 + r.Intn(2)
+				k := 1 + r.Intn(4)
 				sb.WriteString(ind + "Tags")
 				for j := 0; j < k; j++ {
 					sb.WriteString(" " + vlib.Pick(r, tags))
@@ -280,7 +280,15 @@ func genTagSoup(r vlib.Rnd) []byte {
 			used[v+p] = true
 			sb.WriteString(v + " " + p + "\n")
 			tagLine("  ")
-			sb.WriteString("  " + vlib.Pick(r, []string{"200 any", "200 any\n  404 empty", "599\n    Body any", "100 any"}) + "\n")
+			if vlib.Chance(r, 1, 3) {
+				sb.WriteString("  " + vlib.Pick(r, []string{"Request\n    {\"a\": 1}", "Request any", "Request\n    Headers\n      {\"h\": 1}\n    Body\n      [1]"}) + "\n")
+			}
+			sb.WriteString("  " + vlib.Pick(r, []string{"200 any", "200 any\n  404 empty", "599\n    Body any", "100 any", "201", "200 any\n  404", "200\n    {\"ok\": true}\n  500\n    Headers\n      {\"h\": 1}"}) + "\n")
+			if pp := vlib.PathParams(p); len(pp) > 0 && vlib.Chance(r, 1, 2) {
+				// a Path that describes a subset of the parameters, sometimes with a rule the example violates
+				q := pp[r.Intn(len(pp))]
+				sb.WriteString("  Path\n    {\n      \"" + q + "\": " + vlib.Pick(r, []string{"1", "\"x\"", "1 // {min: 5}", "\"ab\" // {maxLength: 1}", "2 // {type: \"integer\"}", "@t1"}) + "\n    }\n")
+			}
 		case 1: // URL group
 			if used["URL"+p] {
 				continue
